@@ -114,6 +114,7 @@ class DB:
         for k, f in self.fns.items():
             self._by_name.setdefault(f.name, []).append(f)
             if f.hir:
+                canonicalise(f.hir)
                 annotate_lets(f.hir)
         self._closures_of = {}
         for k, f in self.fns.items():
@@ -221,11 +222,42 @@ class DB:
 # ======================================================================================
 # HIR helpers
 # ======================================================================================
+def canonicalise(root):
+    """rewrite equivalent surface forms into one, in place, before any rule looks at the tree:
+       `match b { true => X, false => Y }` (b: bool, arms in either order, `_` for the second)  ->  `if b { X } else { Y }`"""
+    stack = [root]
+    while stack:
+        n = stack.pop()
+        if isinstance(n, list):
+            stack.extend(n)
+            continue
+        if not isinstance(n, dict):
+            continue
+        if n.get("k") == "Match" and n.get("src") == "Normal" and (n.get("scrut") or {}).get("ty") == "bool" and len(n.get("arms", [])) == 2 \
+                and not any("guard" in a for a in n["arms"]):
+            def lit(a):
+                p = a.get("pat") or {}
+                e = p.get("e") or {}
+                if p.get("k") == "Expr" and e.get("k") == "Lit" and e.get("t") == "bool":
+                    return bool(e.get("v"))
+                return "_" if p.get("k") == "Wild" else None
+            v0, v1 = lit(n["arms"][0]), lit(n["arms"][1])
+            if v0 in (True, False) and (v1 == (not v0) or v1 == "_"):
+                then, els = (n["arms"][0]["body"], n["arms"][1]["body"]) if v0 else (n["arms"][1]["body"], n["arms"][0]["body"])
+                scrut = n["scrut"]
+                keep = {k: n[k] for k in ("id", "ty", "sp", "mac") if k in n}
+                n.clear()
+                n.update(keep)
+                n.update({"k": "If", "cond": scrut, "then": then, "else": els, "canon": "bool-match"})
+        stack.extend(v for v in n.values() if isinstance(v, (dict, list)))
+
+
 def annotate_lets(root):
     """give every use of an immutable, initialised `let x = e` binding a reference (`init`) to `e`: named booleans and hoisted
     sub-expressions can then be looked through by atoms()/eval3()/cmp_atom()/lit_int()/mentions() (never by walk(), so counts and
     statement order are unaffected)"""
     inits = {}
+    minits = {}
     assigned = set()
     stack = [root]
     nodes_ = []
@@ -244,6 +276,8 @@ def annotate_lets(root):
             p = n.get("pat") or {}
             if p.get("k") == "Bind" and "Mut" not in (p.get("mode") or "") and "sub" not in p:
                 inits[p["lid"]] = n["init"]
+            elif p.get("k") == "Bind" and "sub" not in p:
+                minits[p["lid"]] = n["init"]
         if n.get("k") in ("Assign", "AssignOp"):
             l = n.get("l") or {}
             if l.get("k") == "Path" and l.get("res") == "local":
@@ -251,6 +285,8 @@ def annotate_lets(root):
     for n in nodes_:
         if n.get("k") == "Path" and n.get("res") == "local" and n.get("lid") in inits and n["lid"] not in assigned:
             n["let_init"] = inits[n["lid"]]
+        elif n.get("k") == "Path" and n.get("res") == "local" and n.get("lid") in minits:
+            n["mut_init"] = minits[n["lid"]]       # initial value of a `let mut` (never looked through implicitly)
 
 
 def deref_let(n, depth=6):
@@ -461,7 +497,7 @@ def lit_int(n):
     return None
 
 
-def render(n, depth=0, x=False):
+def render(n, depth=0, x=False, subst=None, canon=False):
     """compact pseudo-source rendering for evidence and diagnostics; with x=True immutable let-bound locals are replaced by
     their initialisers (shape comparisons are then insensitive to hoisting a sub-expression into a `let`)"""
     if not isinstance(n, dict):
@@ -469,9 +505,19 @@ def render(n, depth=0, x=False):
     if depth > 14:
         return "…"
     k = n.get("k")
-    r = lambda y: render(y, depth + 1, x)
+    r = lambda y: render(y, depth + 1, x, subst, canon)
+    if canon:
+        if k in ("AddrOf",) or (k == "Unary" and n.get("op") == "Deref") or k == "Cast" or k == "DropTemps":
+            return r(n["e"])
+        if k == "Binary" and n.get("op") in ("Add", "Mul", "And", "Or", "Eq", "Ne", "BitOr", "BitAnd"):
+            a, b = sorted((r(n["l"]), r(n["r"])))
+            return "(%s %s %s)" % (a, {"Add": "+", "Mul": "*", "And": "&&", "Or": "||", "Eq": "==", "Ne": "!=", "BitOr": "|", "BitAnd": "&"}[n["op"]], b)
+        if k == "Block" and not n.get("stmts") and "expr" in n:
+            return r(n["expr"])
     if k == "Path":
         if n.get("res") == "local":
+            if subst is not None and n.get("lid") in subst:
+                return subst[n["lid"]]
             if x and "let_init" in n:
                 return r(n["let_init"])
             return n["name"]
